@@ -863,9 +863,40 @@ INT_EXTREMES = [-2147483648, 2147483647, -1, 0, 1, 127, 128, -128, -129, 255, 25
 FLT_SPECIAL = [0x00000000, 0x80000000, 0x00000001, 0x80000001, 0x7f7fffff, 0xff7fffff, 0x3f800000, 0xbf800000,
                0x3dcccccd, 0x00800000, 0x4b000000]      # finite values only (inf: see notes)
 
-def gen_incoming(rng, p):
-    """(tag, value) of a random parameter message for one element of p"""
+FLT_NONFINITE = [0x7f800000, 0xff800000]                   # +inf, -inf (a NaN compares unequal to itself: "the same state" is not defined for it)
+UNKNOWN_SYMS = [b"zzz", b"none", b"Sine"]                    # in no generated map (SYMS are lower case words)
+
+def near_default_floats(p, k=0):
+    """bit patterns next to the default of element k of a float port, inside the declared range"""
+    if getattr(p, "default", None) is None:
+        return []
+    d = p.default[min(k, len(p.default) - 1)]
+    if fnan(d):
+        return []
+    cands = []
+    if d & 0x7fffffff == 0:
+        for m in (0x00800000, 0x00000001, 0x00000002, f2b(1e-8)):
+            cands += [m, m | 0x80000000]
+    else:
+        for dlt in (1, 2, -1, -2):
+            b = d + dlt
+            if (b ^ d) & 0x80000000 == 0 and (b & 0x7f800000) != 0x7f800000 and (b & 0x7fffffff) != 0:
+                cands.append(b)
+    lo = None if p.min is None else b2f(p.min)
+    hi = None if p.max is None else b2f(p.max)
+    return [b for b in cands if (lo is None or b2f(b) >= lo) and (hi is None or b2f(b) <= hi)]
+
+def gen_incoming(rng, p, exotic=0.0, k=0):
+    """(tag, value) of a random parameter message for one element of p.
+    exotic > 0 (C12 only): with that probability a float port is sent a non-finite value and a scalar option
+    port a symbol that is not in its map - legal messages whose states the savefile does not carry
+    (finding classes nonfinite-float / option-outside-range, notes/C12.md stage 6)"""
     ek = p.elem_kind()
+    if exotic and ek in ("f", "o") and rng.random() < exotic:
+        if ek == "f":
+            return ("f", rng.choice(FLT_NONFINITE))
+        if not p.is_array():
+            return ("S", rng.choice(UNKNOWN_SYMS))
     if ek == "c":
         return ("c", rng.choice([rng.randint(0, 127), rng.randint(0, 127), rng.randint(-128, 127), 0, 127, 39, 92, 10]))
     if ek == "i":
@@ -882,6 +913,12 @@ def gen_incoming(rng, p):
         return ("i", max(-2147483648, min(2147483647, v)))
     if ek == "f":
         r = rng.random()
+        near = near_default_floats(p, k) if r < 0.25 else []
+        if near:
+            # a state that differs from the default by next to nothing: one and two units in the last place,
+            # around 0.0 the smallest normal, a denormal and 1e-8 (a comparison with a tolerance instead of
+            # == would not save the parameter)
+            return ("f", rng.choice(near))
         if r < 0.2:
             return ("f", rng.choice(FLT_SPECIAL))
         if r < 0.5:
@@ -930,7 +967,7 @@ def mop_text(i, k, v):
         s = tag + hx(bytes(x))
     return "%d.%d.%s" % (i, k, s)
 
-def gen_ops(rng, ref, nops, bias_guards=True, focus=False):
+def gen_ops(rng, ref, nops, bias_guards=True, focus=False, exotic=0.0, fill=0.0):
     """random parameter messages; returns (ops text, model ops text) and leaves ref in the reached state.
     focus: the first messages switch one guard (switch of a pointer sub-tree / 'enabled by' toggle) on and
     write two of the ports it governs, so that the saved file holds a dependency among its lines"""
@@ -940,7 +977,7 @@ def gen_ops(rng, ref, nops, bias_guards=True, focus=False):
         return "-", "-"
     guards = sorted({g for fp in flat for g in fp.hard + fp.soft})
     sels = sorted({fp.sel for fp in flat if fp.sel is not None})
-    plan = []
+    plan, n_on = [], 1
     if focus and guards:
         # switches that govern ports of their own directory (rSelf, "name/toggle" forms) are rarer: half of
         # the focused files are about one of them
@@ -949,6 +986,34 @@ def gen_ops(rng, ref, nops, bias_guards=True, focus=False):
         g = rng.choice(own) if (own and rng.random() < 0.5) else rng.choice(guards)
         below = [i for i, fp in enumerate(flat) if g in fp.hard + fp.soft]
         plan = [g] + rng.sample(below, min(len(below), 2))
+        # nested guards: a switch that is itself governed by another switch (a self-enabled sub-tree inside an
+        # enabled / pointer sub-tree).  Both switches on, the inner one first in the plan's file order, then a
+        # port below the inner one: the inner switch's line depends on the outer switch's line through the
+        # directories ABOVE the one it governs
+        nested = [(g1, g2) for g2 in guards for g1 in flat[g2].hard + flat[g2].soft if g1 != g2]
+        nested_own = [(g1, g2) for g1, g2 in nested if g2 in own]
+        if nested and rng.random() < 0.6:
+            g1, g2 = rng.choice(nested_own) if (nested_own and rng.random() < 0.7) else rng.choice(nested)
+            below2 = [i for i, fp in enumerate(flat) if g2 in fp.hard + fp.soft and i != g1]
+            plan = [g1, g2] + rng.sample(below2, min(len(below2), 1))
+            n_on = 2
+    if fill and rng.random() < fill:
+        # every element of one float array gets a value of its own: a line of up to 8 lossless floats
+        # ("1.50 (0x1.8p+0)" each) is longer than the 80 columns of the default options, so the printer's
+        # line breaks - and the column it starts counting at - show in the saved text
+        arrs = [i for i, fp in enumerate(flat) if fp.leaf.kind == "af" and fp.leaf.n >= 4 and ref.exists(i)]
+        if arrs:
+            i = rng.choice(arrs)
+            p = flat[i].leaf
+            for k in range(p.n):
+                for _ in range(20):
+                    x = f2b(nice_float(rng) + k) if rng.random() < 0.5 else f2b(rng.uniform(-20, 20))
+                    if (p.min is None or b2f(x) >= b2f(p.min)) and (p.max is None or b2f(x) <= b2f(p.max)):
+                        break
+                v = ("f", x)
+                ops.append(op_text(flat[i].path + str(k), v))
+                mops.append(mop_text(i, k, v))
+                ref.send(i, k, v)
     for n_op in range(nops):
         r = rng.random()
         if n_op < len(plan):
@@ -961,8 +1026,8 @@ def gen_ops(rng, ref, nops, bias_guards=True, focus=False):
             i = rng.randrange(len(flat))
         p = flat[i].leaf
         k = rng.randrange(p.n) if p.is_array() else 0
-        v = gen_incoming(rng, p)
-        if n_op == 0 and plan and v[0] in ("T", "F"):
+        v = gen_incoming(rng, p, exotic, k)
+        if n_op < n_on and plan and v[0] in ("T", "F"):
             v = ("T", None)
         if flat[i].sel is None and i in sels and v[0] in ("i", "c") and rng.random() < 0.7:
             # selectors mostly inside their table
